@@ -16,13 +16,17 @@ def body(ctx):
     # Color3 / UDim2 constructor calls
     outdir, meta = ctx.harness("c14r", n // 3)
     ctx.correspond(outdir, nontrivial_tag=lambda t: "diagnostics" in t, shrink_group="c14r")
+    # manual_table_clone against its model (whose syntactic half is proved spelling-independent up to `pairs` / `ipairs` / `next`:
+    # C14_clone_shape_invariant): loops over `pairs`, `ipairs`, `next`, and script functions with names like `spairs`, `xipairs`
+    outdir, meta = ctx.harness("clone", 100 if ctx.tier == "quick" else 1500)
+    ctx.correspond(outdir, nontrivial_tag=lambda t: "reported" in t)
     ctx.notes.append(f"renamed names: {ctx.stats.get('renamed_names', 0)}, to names longer than 32 bytes: {ctx.stats.get('rename_to_long_name', 0)}, "
                      f"library-root spellings that were script-bound: {ctx.stats.get('renamed_name_is_library_root_but_script_bound', 0)}")
 
 
 def check(ctx):
     ctx.assumptions = [
-        "special names (self, _G, shared, type, typeof, Roact, React, game, script, workspace, _, _ENV, arg) are never renamed",
+        "special names (self, _G, shared, type, typeof, Roact, React, game, script, workspace, _, _ENV, arg, pairs, ipairs, next) are never renamed",
         "the full renaming-simulation theorem over the scope model is pending; the Lean file proves the lookup/declare commutation lemmas it rests on",
     ]
     return vlib.standard_check(ctx, ["Selene.Props.C14"], body,
